@@ -1,6 +1,6 @@
 """Source of truth for MANIFEST.json (run: python -m vlib.mkmanifest)."""
 
-REPO_FIX_COMMITS = ["04f98b2", "9ce180e", "cfc2ed2", "1d8dc7e", "8ef3efb", "a7c5d9c", "2fb9873", "812fbc2", "343713a", "2036f84", "8402cd8", "1e36e27", "ed92c78", "c0485e3", "a0c4921", "9103dfd", "b4aac6a", "62476ec", "c69336e", "1162fd4"]
+REPO_FIX_COMMITS = ["04f98b2", "9ce180e", "cfc2ed2", "1d8dc7e", "8ef3efb", "a7c5d9c", "2fb9873", "812fbc2", "343713a", "2036f84", "8402cd8", "1e36e27", "ed92c78", "c0485e3", "a0c4921", "9103dfd", "b4aac6a", "62476ec", "c69336e", "1162fd4", "6f75956"]
 
 CHECKS = {
     "C09": {
